@@ -32,12 +32,14 @@ import (
 
 func main() {
 	if len(os.Args) < 2 {
-		fmt.Fprintln(os.Stderr, "usage: c15 sess [flags]")
+		fmt.Fprintln(os.Stderr, "usage: c15 sess [flags] | c15 consts -repo DIR")
 		os.Exit(2)
 	}
 	switch os.Args[1] {
 	case "sess":
 		os.Exit(sessMode(os.Args[2:]))
+	case "consts":
+		os.Exit(constsMode(os.Args[2:]))
 	default:
 		fmt.Fprintf(os.Stderr, "unknown mode %q\n", os.Args[1])
 		os.Exit(2)
@@ -557,6 +559,18 @@ func sessMode(args []string) int {
 				"replay": replay})
 		}
 		o.Count("honest_sessions_ok")
+		// what is on the wire: payload chunks of at most 512 rows, then a
+		// check batch of 256 rows, then four labels
+		crow := 0
+		for m := s.nPayload; m < len(s.data); m++ {
+			crow += s.byteRowsOf(m) * 8
+		}
+		if crow == checkRows && len(s.labels) == 4 && s.payloadRows() == (pl.n+7)/8*8 {
+			o.Count("wire_shape_ok")
+		} else {
+			o.Fail("c15-wire-shape", map[string]any{"session": idx, "n": pl.n, "seed": cf.Seed, "check_rows": crow,
+				"labels": len(s.labels), "payload_rows": s.payloadRows(), "replay": replay})
+		}
 		var faults []fault
 		if pl.faults {
 			faults = s.genFaults(r, pl.exhaustive, cf.N)
